@@ -112,54 +112,61 @@ Proof. exact compose_example. Qed.
 Print Assumptions C15_compose_example.
 
 (* ---- reaction string ---- *)
-(* any permutation of the molecules inside the roles gives the same string, provided molecules with the same sort key
-   (SMILES without CX part) are the same molecule description *)
-Theorem C15_rxn_string_role_order_free_partial : forall no_cx rs rs' gs gs' ps ps',
-  Permutation rs rs' -> Permutation gs gs' -> Permutation ps ps' -> key_inj rs -> key_inj gs -> key_inj ps ->
+(* any permutation of the molecules inside the roles gives the same string.  ncomp_det l: two molecules of l with the
+   same SMILES have the same number of components (true of every molecule the writer produces, see
+   C15_fmol_ok_ncomp_det); the sort key is (SMILES without CX part, radical flags in SMILES order) *)
+Theorem C15_rxn_string_role_order_free : forall no_cx rs rs' gs gs' ps ps',
+  Permutation rs rs' -> Permutation gs gs' -> Permutation ps ps' -> ncomp_det rs -> ncomp_det gs -> ncomp_det ps ->
   rxn_format false no_cx rs gs ps = rxn_format false no_cx rs' gs' ps'.
-Proof. exact rxn_string_role_order_free_partial. Qed.
-Print Assumptions C15_rxn_string_role_order_free_partial.
+Proof. exact rxn_string_role_order_free. Qed.
+Print Assumptions C15_rxn_string_role_order_free.
 
-(* without the proviso the statement is false: [Na] and [Na] |^1:0| have the same key *)
-Theorem C15_rxn_string_role_order_free_refuted :
-  exists rs rs' gs ps, Permutation rs rs' /\ rxn_format false false rs gs ps <> rxn_format false false rs' gs ps.
-Proof. exact rxn_string_role_order_free_refuted. Qed.
-Print Assumptions C15_rxn_string_role_order_free_refuted.
+Theorem C15_fmol_ok_ncomp_det : forall l, Forall fmol_ok l -> ncomp_det l.
+Proof. exact fmol_ok_ncomp_det. Qed.
+Print Assumptions C15_fmol_ok_ncomp_det.
+
+(* molecules that differ in radical state only ([Na] and [Na] |^1:0|) are ordered by the radical flags *)
+Theorem C15_rxn_string_radical_tie :
+  rxn_format false false [na_radical; na_plain] [] [mkF "C" 1 [false]] = "[Na].[Na]>>C |^1:1|"%string /\
+  rxn_format false false [na_plain; na_radical] [] [mkF "C" 1 [false]] = "[Na].[Na]>>C |^1:1|"%string.
+Proof. exact rxn_string_radical_tie. Qed.
+Print Assumptions C15_rxn_string_radical_tie.
 
 Theorem C15_rxn_string_role_order_free_example :
   let a := mkF "CCO" 1 [false; false; false] in let b := mkF "[Na+].[Cl-]" 2 [false; false] in let c := mkF "[CH3]" 1 [true] in
-  key_inj [a; b; c] /\
+  ncomp_det [a; b; c] /\
   forallb (fun l => String.eqb (rxn_format false false l [] [a]) "CCO.[CH3].[Na+].[Cl-]>>CCO |^1:3,f:2.3|")
           [[a; b; c]; [a; c; b]; [b; a; c]; [b; c; a]; [c; a; b]; [c; b; a]] = true.
 Proof. exact rxn_string_role_order_free_example. Qed.
 Print Assumptions C15_rxn_string_role_order_free_example.
 
-(* the sort is a stable sort by key: a permutation of its input, sorted *)
+(* the sort is a stable sort by the key order: the same list for every arrangement of the input *)
 Theorem C15_sort_by_perm_invariant : forall (l l' : list fmol),
-  Permutation l l' -> (forall a b, In a l -> In b l -> f_smi a = f_smi b -> a = b) -> sort_by f_smi l = sort_by f_smi l'.
-Proof. exact (sort_by_perm_invariant f_smi). Qed.
+  Permutation l l' -> (forall a b, In a l -> In b l -> key_leb a b = true -> key_leb b a = true -> a = b) ->
+  sort_by key_leb l = sort_by key_leb l'.
+Proof. exact (sort_by_perm_invariant key_leb key_leb_total key_leb_trans). Qed.
 Print Assumptions C15_sort_by_perm_invariant.
 
 (* splitting the written string on '>' and '.', then contracting by the written f: groups, hands exactly the molecule
-   strings, role by role (empty roles included), to the molecule parser *)
-Theorem C15_rxn_split_roundtrip_partial : forall ignore keep_order rs gs ps,
+   strings, role by role (empty roles included), to the molecule parser.  fmol_ok m: the SMILES of m has one non-empty
+   '.'-separated piece per connected component and no '>' *)
+Theorem C15_rxn_split_roundtrip : forall ignore keep_order rs gs ps,
   Forall fmol_ok rs -> Forall fmol_ok gs -> Forall fmol_ok ps ->
-  ps <> [] \/ w_contract (rxn_write keep_order rs gs ps) = [] ->
   read_core ignore (w_sig (rxn_write keep_order rs gs ps))
             (match w_contract (rxn_write keep_order rs gs ps) with [] => None | c => Some c end) =
   Ok (Some (map f_smi (prep keep_order rs), map f_smi (prep keep_order gs), map f_smi (prep keep_order ps))).
-Proof. exact rxn_split_roundtrip_partial. Qed.
-Print Assumptions C15_rxn_split_roundtrip_partial.
+Proof. exact rxn_split_roundtrip. Qed.
+Print Assumptions C15_rxn_split_roundtrip.
 
-(* the side condition is needed: no products + a multi-component molecule is read back wrongly *)
-Theorem C15_rxn_split_roundtrip_refuted :
-  exists rs gs ps, Forall fmol_ok rs /\ Forall fmol_ok gs /\ Forall fmol_ok ps /\
-    read_core true (w_sig (rxn_write false rs gs ps))
-              (match w_contract (rxn_write false rs gs ps) with [] => None | c => Some c end) =
-    Ok (Some (["[Na+].[Cl-]"%string], [], ["[Na+].[Cl-]"%string])) /\
-    map f_smi (prep false ps) = [].
-Proof. exact rxn_split_roundtrip_refuted. Qed.
-Print Assumptions C15_rxn_split_roundtrip_refuted.
+(* no products + a multi-component molecule (read back wrongly before the fix of the slices in smiles.py) *)
+Theorem C15_rxn_split_roundtrip_no_products :
+  Forall fmol_ok [nacl] /\
+  read_core true (w_sig (rxn_write false [nacl] [] [])) (Some (w_contract (rxn_write false [nacl] [] []))) =
+    Ok (Some (["[Na+].[Cl-]"%string], [], [])) /\
+  read_core true (w_sig (rxn_write false [] [nacl] [])) (Some (w_contract (rxn_write false [] [nacl] []))) =
+    Ok (Some ([], ["[Na+].[Cl-]"%string], [])).
+Proof. exact rxn_split_roundtrip_no_products. Qed.
+Print Assumptions C15_rxn_split_roundtrip_no_products.
 
 Theorem C15_rxn_split_roundtrip_example :
   let rs := [mkF "CCO" 1 [false; false; false]; nacl] in let ps := [mkF "[K+].[OH-]" 2 [false; false]; mkF "O" 1 [false]] in
